@@ -219,7 +219,15 @@ macro_rules! runner {
                     Op::Grow | Op::Shrink => {
                         let newlen = if *op == Op::Grow { curlen + PAGE + 1 } else { curlen / 2 };
                         let r = std::panic::catch_unwind(std::panic::AssertUnwindSafe(|| { match &mut st { St::UlRw(p) => { resize_any(p, newlen); } St::LRw(p) => { resize_any(p, newlen); } _ => {} } }));
-                        if r.is_err() { result = "panic"; let _ = w.write_all(format!("O {} panic {} {} {} 255 255 255 0 {} 1 0 0\n", op.name(), ts.0, ts.1 as u8, curlen, vmlck_kb() * 1024 / PAGE).as_bytes()); break; }
+                        if r.is_err() {
+                            result = "panic";
+                            let _ = w.write_all(format!("O {} panic {} {} {} 255 255 255 0 {} 1 0 0\n", op.name(), ts.0, ts.1 as u8, curlen, vmlck_kb() * 1024 / PAGE).as_bytes());
+                            // the region that could not be resized is still there, still typed as before: its pages must still be locked if it was
+                            let still = match &st { St::LRw(p) => p.as_slice().len(), St::UlRw(p) => p.as_slice().len(), _ => curlen };
+                            let want = if ts.1 { (still + PAGE - 1) / PAGE } else { 0 } + clones.iter().map(|c| if c.ts().1 { c.slice().map(|(_, l)| (l + PAGE - 1) / PAGE).unwrap_or(0) } else { 0 }).sum::<usize>();
+                            let _ = w.write_all(format!("P {} {} {}\n", vmlck_kb() * 1024 / PAGE, want, still).as_bytes());
+                            break;
+                        }
                         expect.resize(newlen, 0);
                     }
                     Op::Clone_ => {
@@ -279,7 +287,7 @@ run_arr!(run_a1, arr1, 1); run_arr!(run_a16, arr16, 16); run_arr!(run_a64, arr64
 run_arr!(run_a4096, arr4096, 4096); run_arr!(run_a4097, arr4097, 4097); run_arr!(run_a8193, arr8193, 8193);
 
 #[derive(Clone, Debug)]
-pub struct Run { pub obs: Vec<Obs>, pub clone_obs: Vec<Obs>, pub clone_step: Vec<usize>, pub releases: Vec<(usize, i64)>, pub release_tails: Vec<usize>, pub final_vmlck: Option<usize>, pub mlock_calls: i32, pub signal: i32, pub errors: Vec<String> }
+pub struct Run { pub after_panic: Vec<(usize, usize, usize)>, pub obs: Vec<Obs>, pub clone_obs: Vec<Obs>, pub clone_step: Vec<usize>, pub releases: Vec<(usize, i64)>, pub release_tails: Vec<usize>, pub final_vmlck: Option<usize>, pub mlock_calls: i32, pub signal: i32, pub errors: Vec<String> }
 
 fn parse_obs(f: &[&str]) -> Obs {
     let g = |i: usize| f.get(i).copied().unwrap_or("0");
@@ -307,12 +315,13 @@ pub fn run_sequence(container: usize, len: usize, ops: &[Op], fail_from: i32) ->
     let mut st = 0;
     unsafe { libc::waitpid(pid, &mut st, 0); }
     let signal = if libc::WIFSIGNALED(st) { libc::WTERMSIG(st) } else { 0 };
-    let mut run = Run { obs: vec![], clone_obs: vec![], clone_step: vec![], releases: vec![], release_tails: vec![], final_vmlck: None, mlock_calls: -1, signal, errors: vec![] };
+    let mut run = Run { after_panic: vec![], obs: vec![], clone_obs: vec![], clone_step: vec![], releases: vec![], release_tails: vec![], final_vmlck: None, mlock_calls: -1, signal, errors: vec![] };
     for l in text.lines() {
         let f: Vec<&str> = l.split(' ').collect();
         match f[0] { "O" => run.obs.push(parse_obs(&f)), "C" => { run.clone_step.push(run.obs.len().saturating_sub(1)); run.clone_obs.push(parse_obs(&f)); }
             "R" => { run.releases.push((f[1].parse().unwrap_or(0), f[2].parse().unwrap_or(0))); run.release_tails.push(f.get(3).and_then(|x| x.parse().ok()).unwrap_or(0)); }
             "F" => { run.final_vmlck = f[1].parse().ok(); run.mlock_calls = f[2].parse().unwrap_or(-1); }
+            "P" => run.after_panic.push((f[1].parse().unwrap_or(0), f[2].parse().unwrap_or(0), f.get(3).and_then(|x| x.parse().ok()).unwrap_or(0))),
             "E" => run.errors.push(l[2..].to_string()), _ => {} }
     }
     run
@@ -567,6 +576,7 @@ pub fn run_c19(out: &mut Out, tier: &str, _seed: u64) {
                     if o.len > 0 { let want = if o.locked { pages_spanned(o.len) } else { 0 } + live_clone_pages_locked;
                         if o.vmlck_pages != want { out.hit("protected.mlock-refused.reported-as-success", format!("{} (step {}) returned Ok with the type state {} but {} pages are locked (refusing from call {}), length {}", o.op, idx, if o.locked { "Locked" } else { "Unlocked" }, o.vmlck_pages, k, len), rp.clone()); break; } }
                   } }
+                for (locked_now, want, still) in run.after_panic.iter() { if locked_now < want { out.hit("protected.mlock-refused.earlier-region-unlocked", format!("after a resize that could not lock its replacement, the region (still {} bytes, still typed Locked) has {} of its {} pages locked (refusing from call {})", still, locked_now, want, k), rp.clone()); } }
                 for c in run.clone_obs.iter() { if c.len > 0 && (c.first != expected_perm(c.pm) || c.last != expected_perm(c.pm)) { out.hit("protected.mlock-refused.earlier-region-damaged", format!("length {}", len), rp.clone()); } }
                 if let Some(v) = run.final_vmlck { if v != 0 { out.hit("protected.mlock-refused.residual-locked-pages", format!("{} pages locked after cleanup (refusing from call {})", v, k), rp.clone()); } }
                 for (size, nz) in run.releases.iter() { if *nz > 0 { out.hit("protected.mlock-refused.released-unwiped", format!("{} bytes, {} non-zero (refusing from call {})", size, nz, k), rp.clone()); } }
